@@ -99,7 +99,33 @@ def seeded(args):
     return 0
 
 
+def antimutants(args):
+    """No-alarm side: behaviour-preserving refactors under /verif/antimutants must keep every check at exit 0."""
+    import glob
+    import shutil
+    import tempfile
+    base = runner.VERIF
+    bad = 0
+    for patch in sorted(glob.glob(os.path.join(base, 'antimutants', '*.patch'))):
+        d = tempfile.mkdtemp(prefix='am_', dir='/tmp')
+        try:
+            subprocess.check_call('cp -r /repo/. %s/ && rm -rf %s/.git && cd %s && git init -q . && git apply %s' % (d, d, d, patch), shell=True)
+            for p in runner.PROPS:
+                r = subprocess.run([os.path.join(base, 'check'), p, '--runs', str(args.runs or 600)], capture_output=True, text=True,
+                                   env=dict(os.environ, SQ_REPO=d))
+                if r.returncode != 0:
+                    bad += 1
+                    print('ALARM on behaviour-preserving refactor %s: %s exit=%d\n%s' % (os.path.basename(patch), p, r.returncode, r.stdout[-600:]))
+            print('%-44s every check exit 0' % os.path.basename(patch) if not bad else '%s: alarms' % os.path.basename(patch), flush=True)
+        finally:
+            shutil.rmtree(d, ignore_errors=True)
+    subprocess.run(['rm', '-rf', os.path.join(base, 'replays')])
+    return 0 if not bad else 1
+
+
 def main(which, args):
     if which == 'selftest-determinism':
         return determinism(args)
+    if which == 'selftest-antimutants':
+        return antimutants(args)
     return seeded(args)
